@@ -568,6 +568,8 @@ class Angle(object):
 
         if self._deg < 0:
             self._deg = 360.0 - abs(self._deg)
+            if self._deg >= 360.0:  # A tiny negative angle rounds up to 360
+                self._deg = 0.0
         return self
 
     def __eq__(self, b):
